@@ -135,6 +135,8 @@ def mutation_alphabet(spec):
     A.append({'op': 'rename', 'model': 'Item', 'name': 'tags', 'new': 'labels'})
     A.append({'op': 'delete', 'model': 'Item', 'name': 'owner'})
     A.append({'op': 'rename', 'model': 'Anchor', 'name': 'value', 'new': 'val'})
+    A.append({'op': 'add', 'model': 'Item', 'name': 'ref3', 'field': _f('ForeignKey', to='Anchor', null=True),
+              'initial': 1})
     return A
 
 
